@@ -19,8 +19,11 @@ otherwise PushedStreamReceived carries the right parent id, promised id and
 the validated headers; the promised stream carries only a response; pushes on
 pushed streams are refused on both ends.
 """
+import hpack
+
 from .. import harness as H
 from .. import lifecycle as L
+from ..canon import fingerprint
 from .. import wire
 from ..models import streams as SM
 
@@ -58,7 +61,9 @@ class Spec(L.Spec):
                 extra.append("%s:push:%d:%d" % (d, parent, p))
             extra.append("%s:push:%d:4:bad" % (d, parent))
         if client:
-            extra += ["l:ep:0", "l:ep:1", "rxack", "rx:push:2:4", "rx:hdr:2:request", "rx:hdr:4:response:es", "l:hdr:2:request",
+            # l:ep:9 = update_settings({ENABLE_PUSH: 0, MAX_FRAME_SIZE: 1}), refused as a whole; l:ep:8 = an unrelated, valid
+            # update_settings (INITIAL_WINDOW_SIZE) whose acknowledgement changes nothing about push
+            extra += ["l:ep:0", "l:ep:1", "l:ep:9", "l:ep:8", "rxack", "rx:push:2:4", "rx:hdr:2:request", "rx:hdr:4:response:es", "l:hdr:2:request",
                       "l:data:2"]
         else:
             extra += ["rx:ep:0", "rx:ep:1", "l:push:2:4", "l:pushrace:%d:2" % f, "l:pushrace:%d:4" % f]
@@ -71,8 +76,14 @@ class Spec(L.Spec):
 
     def init_extra(self, st):
         st.extra = {"rep": 1, "lep": 1, "pend": ()}
+        # the server's compressor for the promises it sends (client role): ONE encoder with incremental indexing, so that a
+        # promise refers to table entries inserted by earlier ones - also by promises the client refused
+        st.penc = hpack.Encoder()
         # acknowledge the initial SETTINGS so that later ACKs match update_settings one to one
         st.h.rx([wire.settings([], ack=True)])
+
+    def fingerprint(self, st):
+        return fingerprint(super().fingerprint(st), st.penc)
 
     def execute(self, st, lab):
         parts = lab.split(":")
@@ -82,13 +93,21 @@ class Spec(L.Spec):
             info = {"dir": "rx", "kind": "ack", "es": False}
             o = h.rx([wire.settings([], ack=True)])
             if st.extra["pend"]:
-                st.extra["lep"] = st.extra["pend"][0]
+                if st.extra["pend"][0] is not None:
+                    st.extra["lep"] = st.extra["pend"][0]
                 st.extra["pend"] = st.extra["pend"][1:]
             return o, info
         if len(parts) >= 2 and parts[1] == "ep":
             v = int(parts[2])
             info = {"dir": parts[0], "kind": "ep", "es": False}
-            if parts[0] == "l":
+            if parts[0] == "l" and v == 9:
+                o = h.api("update_settings", {wire.S_ENABLE_PUSH: 0, wire.S_MAX_FRAME_SIZE: 1})
+                info["kind"] = "epbad"
+            elif parts[0] == "l" and v == 8:
+                o = h.api("update_settings", {wire.S_INITIAL_WINDOW_SIZE: 70000})
+                if o.kind == "ok":
+                    st.extra["pend"] = st.extra["pend"] + (None,)
+            elif parts[0] == "l":
                 o = h.api("update_settings", {wire.S_ENABLE_PUSH: v})
                 if o.kind == "ok":
                     st.extra["pend"] = st.extra["pend"] + (v,)
@@ -132,7 +151,8 @@ class Spec(L.Spec):
                 o = h.api("push_stream", parent, promised, list(hdrs))
             else:
                 info["verdict"] = SM.recv_verdict(m, "push", parent, promised=promised)
-                o = h.rx([wire.push_promise(parent, promised, sb(hdrs))], ("push", parent, promised))
+                block = st.penc.encode([hpack.HeaderTuple(n, v) for n, v in hdrs], huffman=False) if self.client else sb(hdrs)
+                o = h.rx([wire.push_promise(parent, promised, block)], ("push", parent, promised))
             return o, info
         return super().execute(st, lab)
 
@@ -142,6 +162,12 @@ class Spec(L.Spec):
         acts = []
         for lab in self.menu:
             if lab == "rxack" and not st.extra["pend"]:
+                continue
+            # (changes of different settings are never in flight together: the library matches ACKs per key - C11's known
+            # finding - and would apply the other change one ACK early)
+            if lab == "l:ep:8" and st.extra["pend"]:
+                continue
+            if lab in ("l:ep:0", "l:ep:1") and None in st.extra["pend"]:
                 continue
             acts.append(lab)
         return acts
@@ -154,6 +180,10 @@ class Spec(L.Spec):
                     bad("promise-overtaken-by-settings-ack", "%s: the promise was queued before ENABLE_PUSH=0 arrived, output order %s" % (
                         lab, [f.name for f in o.frames]))
             return "pushrace-" + o.kind
+        if info["kind"] == "epbad":
+            if o.kind == "ok" or o.raw:
+                bad("invalid-settings-accepted", "%s -> %s" % (lab, o.brief()))
+            return "epbad-" + o.kind
         if info["kind"] != "push":
             # the promised stream "carries only a response": judged through the lifecycle verdicts
             if info.get("sid") in (2, 4) and "verdict" in info and info["dir"] == "rx":
